@@ -1,12 +1,12 @@
 package main
 
 import (
-	"path/filepath"
 	"crypto/sha256"
 	"encoding/hex"
 	"encoding/json"
 	"fmt"
 	"os"
+	"path/filepath"
 	"sort"
 	"time"
 
@@ -158,8 +158,8 @@ func (a *agg) write(path string, src source) error {
 				"process start-up, environment capture, CI detection":              "real: every lifetime is a fresh OS process with a scrubbed environment",
 				"kernel file semantics": "real, below a private tmpfs root",
 				"os, sync, path/filepath, go/parser, io/ioutil as seen by the module's packages": "shim: yield + log + fault, then the real call (sync.Once rebuilt from the scheduler-aware mutex, sync.Map operations are yield points, RWMutex writer preference modelled by the scheduler)",
-				"storage between lifetimes": "real files on tmpfs; the driver injects torn tails, flipped bytes, half-written entries, lost terminators, emptied files, hand-made blank lines, symbolic links, deleted files",
-				"goroutine scheduling among simulated tests":                             "simulator, seeded",
+				"storage between lifetimes":                  "real files on tmpfs; the driver injects torn tails, flipped bytes, half-written entries, lost terminators, emptied files, hand-made blank lines, symbolic links, deleted files",
+				"goroutine scheduling among simulated tests": "simulator, seeded",
 				"clock": "none exists in the library",
 			},
 		},
